@@ -48,10 +48,10 @@ CONF = {
     "C16": dict(fuzz=[dict(name="fz_chunk", quick_runs=150000, thorough_runs=5000000, max_len=400)],
                 also=dict(quick=[("C16H", 600), ("C16P", 4000), ("C16S", 500)], thorough=[("C16H", 12000), ("C16P", 150000), ("C16S", 15000)]), level="exploration", workers=16, quick=dict(cases=900, size=50), thorough=dict(cases=20000, size=100)),
     "C17": dict(level="exploration", workers=16, quick=dict(cases=8000, size=100), thorough=dict(cases=150000, size=150),
-                fuzz=[]),
+                fuzz=[dict(name="fz_msg", quick_runs=150000, thorough_runs=6000000, max_len=400)]),
     "C18Q": dict(level="exploration", workers=16, quick=dict(cases=1500, size=60), thorough=dict(cases=30000, size=100)),
     "C18": dict(also=dict(quick=[("C18Q", 1500), ("C08", 500), ("C06", 800)], thorough=[("C18Q", 30000), ("C08", 20000), ("C06", 20000)]), level="exploration", workers=16, quick=dict(cases=12000, size=100), thorough=dict(cases=300000, size=150),
-                fuzz=[]),
+                fuzz=[dict(name="fz_q", quick_runs=150000, thorough_runs=6000000, max_len=800)]),
     "C19": dict(level="exploration", workers=16, quick=dict(cases=10000, size=100), thorough=dict(cases=150000, size=100),
                 fuzz=[dict(name="fz_url", quick_runs=400000, thorough_runs=8000000, max_len=300, dict="fuzz/url.dict")]),
 }
